@@ -2,6 +2,7 @@
 import PgModel.Json
 import PgModel.Gen
 import PgGen.C15Quirks
+import PgModel.Nsga2
 open Pg Pg.C15
 
 structure EvoOps where
@@ -122,6 +123,24 @@ def obsJ : Algo → St → J
     .obj [("np", .int np), ("nf", .int nf), ("gen", .int g), ("pop", .arr (pop.map itemJ))]
   | _, s => .obj [("np", .int s.np), ("nf", .int s.nf)]
 
+/-- NSGA2: the model's population component encodes (elites, unprocessed population); rewards are shown
+as the objective tuple. -/
+def itemNsgaJ (it : Item) : J :=
+  .obj [("dna", .int it.dna), ("reward", match it.reward with
+          | some r => .arr ((Nsga2.objs r).map .int) | none => .null),
+        ("pid", optNat it.pid), ("gid", optNat it.gid),
+        ("initial", optBool it.initial), ("fbseq", optNat it.fbseq), ("key", optNat it.key)]
+
+def obsNsga : Algo → St → J
+  | .evolution _ _, .evolution np nf _ _ g enc _ =>
+    let (elites, pop) := Nsga2.decode enc
+    .obj [("np", .int np), ("nf", .int nf), ("gen", .int g), ("pop", .arr (pop.map itemNsgaJ)),
+          ("elites", match elites with
+            | none => .null
+            | some es => .arr (es.map fun it => .arr [.int it.dna, match it.reward with
+                | some r => .arr ((Nsga2.objs r).map .int) | none => .null]))]
+  | _, s => .obj [("np", .int s.np), ("nf", .int s.nf)]
+
 def nextJ : Except Err Item → J
   | .error e => .str (errName e)
   | .ok it => .obj [("dna", .int it.dna), ("initial", optBool it.initial), ("gid", optNat it.gid),
@@ -149,8 +168,22 @@ def handle (j : J) : J :=
       | some (_, xs) => xs.getD pos 999999
       | none => 999999
     let ops' := ops.getD ⟨"", 0, "none", 0⟩
+    -- recorded reproduction (real operators): step ↦ children
+    let table : List (Nat × List Nat) := match j.get? "table" with
+      | some (.obj kvs) => kvs.filterMap fun (k, v) => do
+          let step ← k.toNat?
+          let xs ← v.asArr?
+          pure (step, xs.filterMap J.asNat?)
+      | _ => []
+    let isNsga := ops'.update == "nsga2"
+    let repro : List Item → Nat → Nat → List Nat :=
+      if ops'.repro == "table" then fun _ _ step => ((table.find? (·.1 == step)).map (·.2)).getD []
+      else reproOf n ops'
+    let update : List Item → Nat → List Item :=
+      if isNsga then Nsga2.update nsga2Facts ops'.keep else updateOf ops'
     let env : Env := { space := space, draw := draw, hash := fun hid d => if hid = 0 then d + 1000000 else d % hid,
-                       repro := reproOf n ops', update := updateOf ops', q := currentQuirks }
+                       repro := repro, update := update, q := currentQuirks }
+    let obsJ := if isNsga then obsNsga else obsJ
     let cuts := ((j.getArr? "cuts").getD []).filterMap J.asNat?
     let ks := (List.range (events.length + 1)).map fun k =>
       let live := runLive env algo (events.take k)
@@ -159,7 +192,8 @@ def handle (j : J) : J :=
         | .ok s => (obsJ algo s, .arr ((proposeN env algo m s).1.map nextJ))
       .obj [("live", obsJ algo live.st), ("rec", recJ.1),
             ("live_next", .arr ((proposeN env algo m live.st).1.map nextJ)), ("rec_next", recJ.2),
-            ("hist", .arr (live.hist.map fun (it, r) => .arr [.int it.dna, optInt r]))]
+            ("hist", .arr (live.hist.map fun (it, r) => .arr [.int it.dna,
+              if isNsga then (match r with | some r => .arr ((Nsga2.objs r).map .int) | none => .null) else optInt r]))]
     .obj [("ks", .arr ks)]
   | _, _, _, _, _ => bad "c15 request"
 
